@@ -376,12 +376,14 @@ fn gen_workload(rng: &mut Rng, next_id: &mut u64) -> Workload {
     let ng = rng.range(1, 4) as usize;
     let mut groups = Vec::new();
     let vlen = rng.range(1, 3) as usize;
+    let vary = rng.chance(1, 3); // entries of different sizes: rotation points move inside batches
     for _ in 0..ng {
         let n = rng.range(1, 4) as usize;
         let mut g = Vec::new();
         for _ in 0..n {
             *next_id += 1;
-            g.push(mk_write(*next_id, rng.below(50), vlen));
+            let l = if vary { rng.range(0, 40) as usize } else { vlen };
+            g.push(mk_write(*next_id, if rng.chance(1, 10) { u64::MAX } else { rng.below(50) }, l));
         }
         groups.push(g);
     }
